@@ -3,7 +3,7 @@
    Proofs: Proofs/BlockFacts.v, LifeTheorems.v.  OGenesis is excluded by an explicit hypothesis. *)
 From Coq Require Import ZArith NArith List Bool.
 From FR Require Import Dec Types Bank Match Step Genesis Model Spec.
-From FR.Proofs Require Import FrameFacts TxFacts BlockFacts LifeTheorems LifeExamples.
+From FR.Proofs Require Import FrameFacts TxFacts BlockFacts LifeTheorems GenesisFacts LifeExamples.
 Import ListNotations.
 Open Scope Z_scope.
 
@@ -35,6 +35,21 @@ Theorem C13_bounded_run : forall ops s,
   Forall (fun o => o <> OGenesis) ops -> ids_ok s -> bounded s -> ids_ok (run s ops) /\ bounded (run s ops).
 Proof. exact L_run_invariants. Qed.
 Print Assumptions C13_bounded_run.
+
+(* every operation, GENESIS included, under gen_ok (see C08_gen_ok_invariant) *)
+Theorem C13_bounded_all : forall s o, gen_ok s -> bounded s -> bounded (snd (step s o)).
+Proof. exact L_C13_bounded_all. Qed.
+Print Assumptions C13_bounded_all.
+
+Theorem C13_bounded_run_all : forall ops s, gen_ok s -> bounded s -> gen_ok (run s ops) /\ bounded (run s ops).
+Proof. exact L_run_invariants_all. Qed.
+Print Assumptions C13_bounded_run_all.
+
+Theorem C13_ends_grow_all : forall s o id a,
+  gen_ok s -> find_auction s id = Some a ->
+  exists a', find_auction (snd (step s o)) id = Some a' /\ ends_rel s o a a'.
+Proof. exact L_C13_ends_grow_all. Qed.
+Print Assumptions C13_ends_grow_all.
 
 (* ... hence once max_round extensions have happened a due auction is settled *)
 Theorem C13_last_round_settles : forall s orc a order mi,
